@@ -299,7 +299,7 @@ def shard(i, n, tier, seed, rec, hb):
     pvl = common.import_pvl()
     holder = {}
     per = 160 if tier == "quick" else 5000
-    for reader in gt.READERS:
+    for reader in common.rotated(gt.READERS, i):
         for j in range(i, per, n):
             hb.beat()
             case(rec, pvl, reader, f"C05-{seed}-{reader}-{j}", tier, holder)
